@@ -21,10 +21,14 @@ def tagsets():
 
 
 class World(object):
-    def __init__(self):
+    def __init__(self, foreign_kdf=False):
         pgpy = import_pgpy()
         self.pgpy = pgpy
         self.raw = {'P': bytes(K.raw_key('ed25519', created=K.T0)), 'S1': bytes(K.raw_key('ed25519', created=K.T0 + 1)), 'S2': bytes(K.raw_key('cv25519', created=K.T0 + 2))}
+        if foreign_kdf:
+            # the encryption subkey comes from the independent encoder and carries legal non-default KDF parameters (RFC 6637 section 9)
+            from . import build as _build, enc as _enc
+            self.raw['S2'] = _build.pkt(5, _enc.Recipient('cv25519', created=K.T0 + 2, kdf=(10, 9)).secret_body())
         self.other = K.new_key('ed25519', name='Third Party', email='tp@x.org')
         self.otherpub = pgpy.PGPKey.from_blob(bytes(self.other.pubkey))[0]
         self.image = bytearray(open('/repo/tests/testdata/simple.jpg', 'rb').read())
@@ -343,11 +347,12 @@ def generate(ctx, focus):
     traces = []
     saved = keylife.fast_s2k()
     try:
-        for b in behs:
-            traces.append(replay(W, b, observe_every=False))
+        W2 = World(foreign_kdf=True)
+        for n_, b in enumerate(behs):
+            traces.append(replay(W2 if n_ % 3 == 2 else W, b, observe_every=False))
             ctx.case(('beh', str(b)))
-        for b in sims:
-            traces.append(replay(W, b, observe_every=True))
+        for n_, b in enumerate(sims):
+            traces.append(replay(W2 if n_ % 3 == 2 else W, b, observe_every=True))
             ctx.case(('sim', str(b)))
     finally:
         keylife.restore_s2k(saved)
